@@ -33,6 +33,23 @@ PROP = 'C07'
 # exception classes used by the correspondence streams
 
 
+_DEADLINES: list[tuple[str, Any]] = []
+
+
+def _deadline(ctx: Ctx, name: str, seconds: float) -> Any:
+	"""total wall deadline of one generating loop; cases skipped after it are counted and reported by `_report_deadlines`"""
+	dl = pl.Deadline(seconds)
+	_DEADLINES.append((name, dl))
+	return dl
+
+
+def _report_deadlines(ctx: Ctx) -> None:
+	for name, dl in _DEADLINES:
+		if dl.skipped:
+			ctx.notes.append(f'deadline: {dl.skipped} case(s) of {name} skipped after its wall deadline')
+	_DEADLINES.clear()
+
+
 def _errors() -> Any:
 	from rogw.tranp.errors import Errors
 	return Errors
@@ -365,7 +382,8 @@ def proc_case(rng: random.Random, FakeNode: type, plan: dict[str, Any]) -> tuple
 		proc_tok = exc_spec(exc)
 	caught: BaseException | None = None
 	try:
-		proc.exec(root_node)
+		with pl.budget():
+			proc.exec(root_node)
 	except BaseException as e:  # noqa: BLE001 - the escaping class is the observation
 		caught = e
 	line = '\t'.join(['proc', proc_tok, *tokens])
@@ -401,7 +419,10 @@ def stream_proc(ctx: Ctx) -> Stream:
 				d['stage'] = stage
 				cases.append((d, ops, real))
 	# random multi-node runs
+	_dl_proc_random = _deadline(ctx, 'proc-random', ctx.scale(60, 600))
 	for _ in range(ctx.scale(300, 3000)):
+		if _dl_proc_random.over():
+			continue
 		n = rng.randint(1, 6)
 		fallback = rng.random() < 0.5
 		events = []
@@ -527,7 +548,8 @@ class ParseRig:
 
 	def load(self, mod: str, parser: Any = None) -> BaseException | None:
 		try:
-			(parser or self.parser)(mod)
+			with pl.budget():
+				(parser or self.parser)(mod)
 			return None
 		except BaseException as e:  # noqa: BLE001 - the escaping class is the observation
 			return e
@@ -568,7 +590,10 @@ def stream_parse(ctx: Ctx) -> Stream:
 			one(f'provider-raises', exc, 'mem')
 			one(f'provider-raises', exc, 'disk')
 	# mutated small programs through both branches
+	_dl_parse_mutated = _deadline(ctx, 'parse-mutated', ctx.scale(30, 300))
 	for _ in range(ctx.scale(60, 600)):
+		if _dl_parse_mutated.over():
+			continue
 		src = rng.choice(gen.VALID_PROGRAMS)
 		src = ''.join(gen.mutate_tokens(rng, gen.tokens_of(src)))
 		one('mutated', src, rng.choice(['mem', 'disk']))
@@ -649,7 +674,8 @@ class LoadRig:
 
 	def load(self, path: str) -> BaseException | None:
 		try:
-			self.modules.load(path)
+			with pl.budget():
+				self.modules.load(path)
 			return None
 		except BaseException as e:  # noqa: BLE001 - the escaping class is the observation
 			return e
@@ -721,7 +747,10 @@ def stream_graph(ctx: Ctx) -> Stream:
 	rng = ctx.sub_rng('graph')
 	cases = []
 	names = ['m0', 'm1', 'm2', 'm3', 'm4', 'l0', 'l1']
+	_dl_graph = _deadline(ctx, 'graph', ctx.scale(30, 300))
 	for i in range(ctx.scale(150, 1500)):
+		if _dl_graph.over():
+			continue
 		libs = [n for n in ('l0', 'l1') if rng.random() < 0.5] if rng.random() < 0.6 else []
 		k = rng.randint(2, 5)
 		mods = names[:k] + libs
@@ -751,7 +780,8 @@ def stream_graph(ctx: Ctx) -> Stream:
 				ops.append('\t'.join(['unloadg', gtok, ltok, ','.join(reg0) or '-', p]))
 				caught = None
 				try:
-					rig.modules.unload(p)
+					with pl.budget():
+						rig.modules.unload(p)
 				except BaseException as e:  # noqa: BLE001
 					caught = e
 				trace = [c[7:] for c in rig.calls[n0:] if c.startswith('unload:')]
@@ -762,6 +792,55 @@ def stream_graph(ctx: Ctx) -> Stream:
 	st.note = ('the real Modules.load / Modules.unload on random import graphs of 2..7 modules (self-imports, mutual imports, library modules that import ordinary '
 		'ones) over a benign scripted loader, sequences of 2..5 loads/unloads per registry: resulting registry order and order of loader.load / loader.unload calls vs the '
 		'fuel-bounded walks `loadFuel` / `unloadCurrent` (fuel of the termination theorems)')
+	return st
+
+
+# ---------------------------------------------------------------------------------------------
+# stream errors-writer: Writer.flush with scripted attempts
+
+
+def stream_writer(ctx: Ctx) -> Stream:
+	import rogw.tranp.file.writer as wmod
+	from rogw.tranp.file.writer import Writer
+	root = ctx.tmpdir()
+	classes = [c for c in exception_classes()] + [PermissionError, OSError, user_class('MyPermission', (PermissionError,)), user_class('MyPermKey', (PermissionError, KeyError))]
+	classes = [c for c in classes if c is not None]
+	attempts: list[Any] = []
+
+	class ScriptedWriter(Writer):
+		"""the real flush() over a scripted `_flush` (protected hook of the class)"""
+
+		def _flush(self, filepath: str) -> None:
+			exc = attempts.pop(0)
+			if exc is not None:
+				raise exc
+
+	def mk(cls: type) -> BaseException:
+		return make_exception(cls, 'other', None) or make_exception(cls, 'none', None) or KeyError('k')
+
+	cases = []
+	old_sleep = wmod.time.sleep
+	wmod.time.sleep = lambda s: None  # the 0.1 s pause of the retry (harness process only)
+	try:
+		for a in [None, *classes]:
+			for b in ([None] if a is None else [None, PermissionError, KeyError, a]):
+				ea = None if a is None else mk(a)
+				eb = None if b is None else mk(b)
+				attempts[:] = [ea, eb]
+				w = ScriptedWriter(os.path.join(root, 'out', 'x.h'))
+				w.put('text')
+				caught: BaseException | None = None
+				try:
+					with pl.budget():
+						w.flush()
+				except BaseException as e:  # noqa: BLE001
+					caught = e
+				cases.append(({'kind': 'first-ok' if a is None else ('retried' if issubclass(a, PermissionError) else 'not-retried')},
+					['\t'.join(['wflush', 'ok', _tok(ea), _tok(eb)])], [outcome_of(caught)]))
+	finally:
+		wmod.time.sleep = old_sleep
+	st = common.correspond('errors-writer', cases, 'errors', classify=lambda d: d['kind'])
+	st.note = 'the real Writer.flush over a scripted _flush: every exception class on the first attempt × (ok / PermissionError / KeyError / the same class) on the second; escaped class vs `writerFlush` (retry table derived from the generated audit)'
 	return st
 
 
@@ -856,11 +935,14 @@ class LoopRig:
 		tr.tty = fake_tty  # type: ignore[assignment]
 		status = ''
 		try:
-			with contextlib.redirect_stdout(io.StringIO()):
+			with contextlib.redirect_stdout(io.StringIO()), pl.budget(cpu_s=pl.CAP_S * max(1, len(script))):
 				inter.run()
 			status = 'quit'
 		except _Exhausted:
 			status = 'running'
+		except pl.WallCap as e:
+			status = 'timeout'
+			self.last_exc = e
 		except BaseException as e:  # noqa: BLE001
 			status = f'died {display(type(e))}'
 			self.last_exc = e
@@ -974,7 +1056,10 @@ def stream_loop(ctx: Ctx) -> Stream:
 		cls = getattr(obj, parts[-1])
 		return ('src', src), f'code|other {cls_spec(cls)}|ok'
 
+	_dl_loop_mixed = _deadline(ctx, 'loop-mixed', ctx.scale(40, 300))
 	for _ in range(ctx.scale(12, 80)):
+		if _dl_loop_mixed.over():
+			continue
 		k = rng.randint(1, 5)
 		script, toks = [], []
 		for _i in range(k):
@@ -1017,7 +1102,10 @@ def stream_render(ctx: Ctx) -> Stream:
 			return self.text
 
 	words = ['', 'a', 'x y', 'tab\there', 'q"uote', 'ünï', '日本', 'line\nbreak', '{}', '%s']
+	_dl_render_msg = _deadline(ctx, 'render-msg', ctx.scale(30, 300))
 	for _ in range(ctx.scale(120, 1500)):
+		if _dl_render_msg.over():
+			continue
 		args: list[Any] = []
 		toks = []
 		for _a in range(rng.randint(0, 4)):
@@ -1066,7 +1154,10 @@ def stream_render(ctx: Ctx) -> Stream:
 	old_cwd = os.getcwd()
 	os.chdir(root)
 	try:
+		_dl_render_quote = _deadline(ctx, 'render-quote', ctx.scale(30, 300))
 		for i in range(ctx.scale(150, 2000)):
+			if _dl_render_quote.over():
+				continue
 			nlines = rng.choice([0, 1, 1, 2, 3, 5, 8])
 			ls = [rng.choice(line_pool) for _ in range(nlines)]
 			content = '\n'.join(ls) + ('\n' if ls and rng.random() < 0.8 else '')
@@ -1205,7 +1296,8 @@ def stream_trace(ctx: Ctx) -> Stream:
 		entries = _trace_entries(e)
 		r = ErrorRender(e)  # type: ignore[arg-type]
 		try:
-			real = 'ok ' + '|'.join(hx(x) for x in r._ErrorRender__build_stacktrace())
+			with pl.budget():
+				real = 'ok ' + '|'.join(hx(x) for x in r._ErrorRender__build_stacktrace())
 		except BaseException as e2:  # noqa: BLE001
 			real = f'raise {display(type(e2))}'
 		ops = ['\t'.join(['strace', hx(root), *entries])]
@@ -1228,7 +1320,8 @@ def stream_trace(ctx: Ctx) -> Stream:
 		qual = f'{type(e).__module__}.{type(e).__qualname__}'
 		ops.append('\t'.join(['render', hx(root), hx(qual), qtok, str(len(entries)), *entries, *arg_toks]))
 		try:
-			reals.append('ok ' + hx(str(r)))
+			with pl.budget():
+				reals.append('ok ' + hx(str(r)))
 		except BaseException as e5:  # noqa: BLE001
 			reals.append(f'raise {display(type(e5))}')
 		cases.append(({'kind': name}, ops, reals))
@@ -1282,7 +1375,7 @@ def stream_main(ctx: Ctx) -> Stream:
 		sys.argv = ['transpile.py', '-c', config(targets), '-f']
 		os.chdir(root)
 		try:
-			with contextlib.redirect_stdout(out), warnings.catch_warnings():
+			with contextlib.redirect_stdout(out), warnings.catch_warnings(), pl.budget(cpu_s=3 * pl.CAP_S):
 				warnings.simplefilter('ignore', RuntimeWarning)  # runpy notes that the module is already imported (stream errors-loop)
 				runpy.run_module('rogw.tranp.bin.transpile', run_name='__main__', alter_sys=True)
 			text = out.getvalue()
@@ -1309,7 +1402,7 @@ def stream_main(ctx: Ctx) -> Stream:
 	rng = ctx.sub_rng('main')
 	cases = []
 	plans: list[tuple[str, list[str], dict[str, BaseException]]] = [('all-ok', ['t1', 't2', 't4'], {}), ('unparsable-target', ['t1', 't3', 't2'], {}), ('unparsable-first', ['t3', 't1'], {})]
-	picked = classes if ctx.thorough else [c for c in classes if c in (Errors.Logic, Errors.Fatal, KeyError, TypeError, AssertionError, RecursionError, Exception, BaseException, KeyboardInterrupt, SystemExit, GeneratorExit)] + classes[-4:]
+	picked = classes if ctx.thorough else [c for c in classes if c in (Errors.Logic, KeyError, TypeError, RecursionError, Exception, KeyboardInterrupt, SystemExit)] + classes[-2:]
 	for cls in picked:
 		exc = make_exception(cls, 'other', None) or make_exception(cls, 'none', None)
 		if exc is None:
@@ -1494,14 +1587,20 @@ def fuzz_inputs(ctx: Ctx) -> list[tuple[str, str, str | bytes]]:
 			out.append(('seed', m, s))
 	seeds = seeds + gen.SELF_IMPORT_PROGRAMS  # mutation bases of the random part
 	for i, s in enumerate(chunks):
-		out.append(('seed-chunk', both[i % 2], s))
+		if ctx.thorough or i % 4 == ctx.seed % 4:  # ~0.2 s each: the quick tier takes every fourth chunk (which quarter depends on the seed)
+			out.append(('seed-chunk', both[i % 2], s))
 	for s in gen.ILL_TYPED_TEMPLATES:
 		# both modes: an on-disk load also stores the symbol table (StoreSymbols), which forces every lazy type resolution outside any
 		# Procedure — the same text can be an Errors.* in memory and a raw exception on disk
 		for m in both:
 			out.append(('ill-typed', m, s))
-	for md, s in DEEP_NESTING:
-		for m in (both if md == 'both' else (md,)):
+	for k, (md, s) in enumerate(DEEP_NESTING):
+		modes = both if md == 'both' else (md,)
+		if not ctx.thorough and k < 4:
+			modes = (both[k % 2],)  # the moderately deep inputs that must simply work: one mode each in the quick tier
+		if not ctx.thorough and k == 4:
+			modes = ('in-memory',)  # 2000 parentheses cost 1.5 s per mode
+		for m in modes:
 			out.append(('deep-nesting', m, s))
 	# depth stress: the reported node sits 10..600 levels deep (printing it is what needs care)
 	for md, s in gen.depth_cases(ctx.thorough):
@@ -1526,16 +1625,16 @@ def fuzz_inputs(ctx: Ctx) -> list[tuple[str, str, str | bytes]]:
 		'class A(Unknown):\n\tclass B:\n\t\tdef m(self) -> None:\n\t\t\tpass\n',
 		gen.VALID_PROGRAMS[1], gen.VALID_PROGRAMS[2], gen.VALID_PROGRAMS[5],
 	]
-	for b in eof_bases:
+	for b in (eof_bases if ctx.thorough else eof_bases[:3] + eof_bases[5:7]):
 		for tail in gen.EOF_TAILS:
 			out.append(('eof-tail', 'on-disk', gen.with_tail(b, tail)))
 	for i, t in enumerate(gen.ILL_TYPED_TEMPLATES):
-		if t.strip():
+		if t.strip() and (ctx.thorough or i % 2 == ctx.seed % 2):
 			out.append(('eof-tail', 'on-disk', gen.with_tail(t, gen.EOF_TAILS[1 + i % 7])))
 	if ctx.thorough:
 		for name, s in gen.large_sources():
 			out.append(('seed-large', 'in-memory', s))
-	n = ctx.scale(1500, 15000)
+	n = ctx.scale(550, 15000)
 	big = [s for _, s in gen.large_sources()] if ctx.thorough else []
 	chunk_share = 0.06 if ctx.thorough else 0.03  # a chunk costs ~0.2 s per run, a small seed ~0.02 s
 	for i in range(n):
@@ -1702,7 +1801,10 @@ def search_laws(ctx: Ctx) -> SearchResult:
 		cls = rng.choice(classes)
 		events[k]['behave'] = (rng.choice(['raise', 'next']), cls, rng.choice(['none', 'node', 'other']))
 		plans.append(('random', cls, {'procedural': None, 'fallback': rng.random() < 0.5, 'events': events}))
+	_dl_laws_proc = _deadline(ctx, 'laws-proc', ctx.scale(40, 400))
 	for stage, cls, plan in plans:
+		if _dl_laws_proc.over():
+			continue
 		res.cases += 1
 		try:
 			_, ops, real = proc_case(rng, FakeNode, plan)
@@ -1749,7 +1851,10 @@ def search_laws(ctx: Ctx) -> SearchResult:
 	# -- Modules.load / Modules.unload on import graphs (benign loader): no call raises; after unload(p) neither p nor any module that imports
 	#    p is registered (an importer would keep a reference to the stale module); after load(p) p and its import closure are registered
 	names = ['m0', 'm1', 'm2', 'm3', 'l0']
+	_dl_laws_graph = _deadline(ctx, 'laws-graph', ctx.scale(30, 300))
 	for i in range(ctx.scale(120, 1200)):
+		if _dl_laws_graph.over():
+			continue
 		libs = ['l0'] if rng.random() < 0.4 else []
 		mods = names[:rng.randint(2, 4)] + libs
 		if i % 3 == 0:
@@ -1765,7 +1870,8 @@ def search_laws(ctx: Ctx) -> SearchResult:
 			op = 'load' if rng.random() < 0.55 or not rig.modules.loaded() else 'unload'
 			steps.append(f'{op} {p}')
 			try:
-				getattr(rig.modules, op)(p)
+				with pl.budget():
+					getattr(rig.modules, op)(p)
 			except BaseException as e:  # noqa: BLE001
 				bad = (f'graph-{op}:{pl.class_name(e)}@{(pl.tranp_frames(e) or ["no-tranp-frame"])[-1]}', f'Modules.{op}({p!r}) raised {pl.class_name(e)}: {e}')
 				break
@@ -1791,7 +1897,8 @@ def search_laws(ctx: Ctx) -> SearchResult:
 		for target in (f'{stem}leaf', f'{stem}mid', f'{stem}leaf'):
 			res.cases += 1
 			try:
-				mods_real.unload(target)
+				with pl.budget():
+					mods_real.unload(target)
 				left = [m.path for m in mods_real.loaded() if m.path.startswith(stem) or m.path == '__main__']
 				hist[f'unload-imported/{mode}/ok'] += 1
 				if target in left:
@@ -1871,7 +1978,7 @@ def search_loop_histories(ctx: Ctx) -> SearchResult:
 		histories.append([s, 'b = 2'])
 		histories.append([s, s, pool[0]])
 	for kind in (gen.DEPTH_KINDS if ctx.thorough else ('paren', 'list', 'minus')):
-		for d in ((10, 100, 250, 300, 600) if kind in ('paren', 'list', 'minus', 'tuple') else (100, 300)):
+		for d in (((10, 100, 250, 300, 600) if ctx.thorough else (100, 300)) if kind in ('paren', 'list', 'minus', 'tuple') else (100, 300)):
 			histories.append([gen.DEPTH_KINDS[kind](d), 'b = 2'])
 	for _ in range(ctx.scale(40, 400)):
 		n = rng.randint(2, 6)
@@ -1883,7 +1990,10 @@ def search_loop_histories(ctx: Ctx) -> SearchResult:
 	rig = LoopRig(ctx)
 	hist: Counter[str] = Counter()
 	seen_keys: set[str] = set()
+	_dl_sessions = _deadline(ctx, 'sessions', ctx.scale(60, 600))
 	for h in histories:
+		if _dl_sessions.over():
+			continue
 		res.cases += 1
 		# blank lines end an input at the real prompt: a session input never contains one
 		h = ['\n'.join(ln for ln in x.split('\n') if ln.strip()) or 'pass' for x in h]
@@ -1935,7 +2045,7 @@ def search_cache_history(ctx: Ctx) -> SearchResult:
 	plans = [(v, c, dt) for v in valid for c in changed for dt in ('same-second', 'next-second')]
 	plans += [(c, v, 'same-second') for v in valid[:1] for c in changed[:4]]  # broken first, then repaired
 	if not ctx.thorough:
-		plans = [pl_ for i, pl_ in enumerate(plans) if i % 7 == ctx.seed % 7 or (pl_[0] == valid[0] and pl_[1] in (changed[0], changed[4]) and pl_[2] == 'same-second')]
+		plans = [pl_ for i, pl_ in enumerate(plans) if i % 15 == ctx.seed % 15 or (pl_[0] == valid[0] and pl_[1] in (changed[0], changed[4]) and pl_[2] == 'same-second')]
 	# one project and one cache directory for the whole search (the library modules' caches stay warm: an App start costs ~0.2 s instead
 	# of ~1.3 s); every plan uses its own module names, so the module under test is cold in run 1 and in the reference run
 	home = pl.Pipeline('on-disk', base)
@@ -1949,7 +2059,10 @@ def search_cache_history(ctx: Ctx) -> SearchResult:
 		finally:
 			shutil.rmtree(p.root, ignore_errors=True)
 
+	_dl_cache_history = _deadline(ctx, 'cache-history', ctx.scale(60, 600))
 	for k, (first, second, dt) in enumerate(plans):
+		if _dl_cache_history.over():
+			continue
 		res.cases += 1
 		path = os.path.join(home.proj, 'fz', f'h{k}.py')
 		with open(path, 'wb') as f:
@@ -2007,6 +2120,9 @@ STATEMENTS = {
 	'loop_handles_all_errors': 'every member of the generated Errors hierarchy with every argument shape is printed and the loop continues',
 	'turn_survives': 'a turn (unload ok, load and transpile ok or in the hierarchy) returns to the prompt',
 	'turn_unload_unprotected': 'the unload stage of rebuild_module runs outside Modules.load: a non-hierarchy Exception raised there ends the loop (hazard; not reachable by input on HEAD)',
+	'unload_clears_importers': 'for a duplicate-free registry Modules.unload(p) ends with p gone and no registered module importing p (no non-library module left when p is a library) — the law searched on the real code as graph-unload:stale-importer',
+	'writer_flush_outcome': 'Writer.flush ends ok, or with the exception of the directory creation, of a first attempt that is not retried, or of the second attempt',
+	'writer_retry_table': 'the retry clause of the audit at Writer.flush catches PermissionError only',
 	'loop': 'an Interactive step returns to the prompt for every outcome in {ok} ∪ Errors.Error (any subclass) when printing the error succeeds',
 	'loop_history': 'every history of such steps is consumed completely and the loop is still running',
 	'loop_dies': 'any other Exception ends Interactive.run (what the raw parser exception does on the pinned tree)',
@@ -2031,9 +2147,16 @@ def run(ctx: Ctx) -> int:
 	streams: list[Stream] = []
 	if proof.built:
 		with ctx.timed('correspondence'):
-			streams = [stream_hierarchy(ctx), stream_proc(ctx), stream_parse(ctx), stream_load(ctx), stream_graph(ctx), stream_loop(ctx), stream_render(ctx), stream_trace(ctx), stream_main(ctx)]
+			streams = []
+			for fn in (stream_hierarchy, stream_proc, stream_parse, stream_load, stream_graph, stream_writer, stream_loop, stream_render, stream_trace, stream_main):
+				with ctx.timed(f'stream:{fn.__name__}'):
+					streams.append(fn(ctx))
 	with ctx.timed('search'):
-		searches = [search_f3_replay(ctx), search_laws(ctx), search_cache_history(ctx), search_loop_histories(ctx), search_fuzz(ctx)]
+		searches = []
+		for fn in (search_f3_replay, search_laws, search_cache_history, search_loop_histories, search_fuzz):
+			with ctx.timed(f'search:{fn.__name__}'):
+				searches.append(fn(ctx))
+	_report_deadlines(ctx)
 	wrapped = bool(ctx.generated_tables and ctx.generated_tables[0].get('mem_branch_wrapped'))
 	ctx.notes.append('in-memory parser branch on this tree: ' + ('wrapped (parse_mem_fixed applies)' if wrapped else 'NOT wrapped (parse_mem_counterexample applies; F3)'))
 	return common.finish(ctx, proof, streams, searches,
@@ -2050,7 +2173,7 @@ def run(ctx: Ctx) -> int:
 			'source files are valid UTF-8 when a Node-carrying error is rendered (a Node exists only after a successful parse of the decoded file)',
 			'cache files written by tranp itself are intact (a corrupted AST cache is outside the input quantifier)',
 		],
-		trusted=['lark (raises only Exception subclasses from parse; terminates)', 'CPython traceback.format_exception (every entry ends with a line feed) and the re engine (frame pattern)', 'self-hosted parser termination: Tranp.C11.T1_termination'])
+		trusted=['lark (raises only Exception subclasses from parse; terminates)', 'the four stand-alone tools bin/{j2_check,gram_check,ast_check,analyze}.py, compatible/ and test/ are outside the except-clause audit (on no path from the public entry points)', 'CPython traceback.format_exception (every entry ends with a line feed) and the re engine (frame pattern)', 'self-hosted parser termination: Tranp.C11.T1_termination'])
 
 
 def replay(ctx: Ctx, path: str) -> int:
